@@ -16,7 +16,7 @@ Definition after_join (l : clabel) : bool :=
 Definition drained (l : clabel) : bool :=
   match l with CCLUnlock | CJTest _ JClear | CJQJoin JClear => true | _ => false end.
 Definition joining (l : clabel) : option (list nat) :=
-  match l with CSPUnlock ths | CSPJoin ths => Some ths | _ => None end.
+  match l with CSPUnlock ths | CSPAlive ths | CSPJoin ths | CSPAlive2 ths => Some ths | _ => None end.
 
 Definition I_stopjoin (s : st) : Prop :=
   (forall ths, joining (ctl s) = Some ths -> forall w, alive (ws s w) = true -> In w ths) /\
@@ -116,17 +116,29 @@ Proof.
       apply (two_lockers s c1 0%nat Hlk Hne); [rewrite Hc1; cbn; lia | exact Hctl0].
     + exfalso. apply (wc_lockers s w' 0%nat Hlk); [rewrite Hn; cbn; lia | exact Hctl0].
     + exfalso. apply (wc_lockers s w' 0%nat Hlk); [rewrite Hn; cbn; lia | exact Hctl0].
-  - (* CSPUnlock *)
+  - (* CSPUnlock [] *)
+    rewrite Ec in *. cbn [joining after_join drained] in *. split; [intros ? Hj; discriminate Hj | split; [|intros Hx; discriminate Hx]].
+    intros _ w'. destruct (alive (ws s w')) eqn:Ea; [|reflexivity]. destruct (S1 [] eq_refl w' Ea).
+  - (* CSPUnlock (n :: ths) *)
     rewrite Ec in *. cbn [joining after_join drained] in *. split; [exact S1 | split; intros Hx; discriminate Hx].
+  - (* CSPAlive [] *)
+    rewrite Ec in *. cbn [joining after_join drained] in *. split; [intros ? Hj; discriminate Hj | split; [|intros Hx; discriminate Hx]].
+    intros _ w'. destruct (alive (ws s w')) eqn:Ea; [|reflexivity]. destruct (S1 [] eq_refl w' Ea).
+  - (* CSPAlive [n], n dead: everything is joined *)
+    rewrite Ec in *. cbn [joining after_join drained] in *. split; [intros ? Hj; discriminate Hj | split; [|intros Hx; discriminate Hx]].
+    intros _ w'. destruct (alive (ws s w')) eqn:Ea; [|reflexivity].
+    destruct (S1 _ eq_refl w' Ea) as [<-|[]]. unfold alive in Ea. rewrite Epc in Ea. discriminate.
+  - (* CSPAlive (n :: n0 :: l), n dead *)
+    rewrite Ec in *. cbn [joining after_join drained] in *. split; [|split; intros Hx; discriminate Hx].
+    intros ths Hj w' Ha. injection Hj as <-. destruct (S1 _ eq_refl w' Ha) as [<-|Hin]; [|exact Hin].
+    unfold alive in Ha. rewrite Epc in Ha. discriminate.
   - (* CSPJoin [] *)
     rewrite Ec in *. cbn [joining after_join drained] in *. split; [intros ? Hj; discriminate Hj | split; [|intros Hx; discriminate Hx]].
     intros _ w'. destruct (alive (ws s w')) eqn:Ea; [|reflexivity]. destruct (S1 [] eq_refl w' Ea).
-  - (* CSPJoin (n :: l): n is dead *)
-    rewrite Ec in *. cbn [joining after_join drained] in *. split; [|split; intros Hx; discriminate Hx].
-    intros ths Hj w' Ha. injection Hj as <-. destruct (S1 _ eq_refl w' Ha) as [<-|Hin]; [|exact Hin].
-    unfold alive in Ha. match goal with E : wpc (ws s n) = WDead |- _ => rewrite E in Ha end. discriminate.
+  - (* CSPAlive2 *)
+    rewrite Ec in *. cbn [joining after_join drained] in *. split; [exact S1 | split; intros Hx; discriminate Hx].
   - (* CCLGet on an empty queue *)
-    rewrite Ec in *. cbn [joining after_join drained] in *. split; [intros ? Hj; discriminate Hj | split; [exact S2 | intros _; exact Em]].
+    rewrite Ec in *. cbn [joining after_join drained] in *. split; [intros ? Hj; discriminate Hj | split; [exact S2 | intros _; assumption]].
 Qed.
 
 Lemma P_quiet s t f s' :
